@@ -3,9 +3,7 @@ package c12
 // Option / plan / chunk objects through Marshal -> Unmarshal (spec diff only: the Lean side
 // holds the field-coverage tables, not the byte layout).
 //
-//   options  every field of query.ProcessorOptions that is not on the recorded "stays local" list
-//            is given a non-zero value by reflection, so a decoder that forgets a field shows up;
-//            Expr / Condition / ValueCondition come from the statement generator
+//   options  see opts.go (field by field against the model of the regenerated codec rows)
 //   plans    random chains of logical plan nodes over a schema built from a generated condition
 //   chunks   random result batches (every column type, nils, tags, interval index, dims)
 
@@ -13,28 +11,16 @@ import (
 	"fmt"
 	"math"
 	"reflect"
-	"sort"
 	"strings"
-	"time"
 
 	"github.com/openGemini/openGemini/engine/executor"
 	"github.com/openGemini/openGemini/engine/hybridqp"
-	"github.com/openGemini/openGemini/lib/config"
 	"github.com/openGemini/openGemini/lib/util/lifted/influx/influxql"
 	"github.com/openGemini/openGemini/lib/util/lifted/influx/query"
 	"github.com/openGemini/openGemini/lib/util/lifted/vm/protoparser/influx"
 
 	"verif/harness/internal/hx"
 )
-
-// fields of ProcessorOptions that stay on the node that built them (mirror of
-// OG.C12.optionsLocal; the Lean theorem proves fields ⊆ encoded ∪ this list)
-var optionsLocal = map[string]bool{
-	"Exprs": true, "FieldAux": true, "TagAux": true, "Parallel": true, "InterruptCh": true, "Authorizer": true,
-	"ChunkedSize": true, "Chunked": true, "AbortChan": true, "RowsChan": true, "isTimeFirstKey": true, "StmtId": true,
-	"CompareOffset": true, "LowerOpt": true, "BinOp": true, "IsCountValues": true, "SimpleTagset": true, "RemoveMetric": true,
-	"NoPushDownDim": true, "ctx": true, "InConditons": true, "IsSameDims": true, "IsArrowQuery": true,
-}
 
 // a condition the statement parser accepts and that survives String() -> ParseExpr (the
 // expression-level defects are reported by runExpr, not again here)
@@ -44,7 +30,7 @@ func (g *gen) cleanCondition() (influxql.Expr, string) {
 		g.outOfDomain = false
 		text := g.cond(1)
 		r := roundTrip(text)
-		if r.accepted && r.t1 == r.t2 && r.panicked == "" {
+		if r.accepted && r.t1 == r.t2 && r.panicked == "" && !g.outOfDomain {
 			return r.e1, text
 		}
 	}
@@ -53,181 +39,6 @@ func (g *gen) cleanCondition() (influxql.Expr, string) {
 }
 
 func (g *gen) word() string { return g.pick([]string{"a", "host", "region", "usage_user", "my col", "é", "x.y", "", "sel\"ect"}) }
-
-func (g *gen) measurement() *influxql.Measurement {
-	m := &influxql.Measurement{Database: g.word(), RetentionPolicy: g.word(), Name: g.word(), IsTarget: g.r.Bool(),
-		SystemIterator: g.pick([]string{"", "_series"}), EngineType: config.EngineType(g.r.Intn(2)), IsTimeSorted: g.r.Bool()}
-	if m.Name == "" {
-		m.Name = "m"
-	}
-	return m
-}
-
-func (g *gen) options() *query.ProcessorOptions {
-	opt := &query.ProcessorOptions{}
-	v := reflect.ValueOf(opt).Elem()
-	t := v.Type()
-	for i := 0; i < t.NumField(); i++ {
-		f := t.Field(i)
-		if optionsLocal[f.Name] || !f.IsExported() {
-			continue
-		}
-		fv := v.Field(i)
-		switch f.Name {
-		case "Expr":
-			e, _ := g.cleanCondition()
-			opt.Expr = e
-		case "Condition":
-			e, _ := g.cleanCondition()
-			opt.Condition = e
-		case "ValueCondition":
-			e, _ := g.cleanCondition()
-			opt.ValueCondition = e
-		case "Aux":
-			for k := 0; k < 1+g.r.Intn(3); k++ {
-				opt.Aux = append(opt.Aux, influxql.VarRef{Val: g.word(), Type: influxql.DataType(1 + g.r.Intn(5))})
-			}
-		case "Sources":
-			for k := 0; k < 1+g.r.Intn(2); k++ {
-				opt.Sources = append(opt.Sources, g.measurement())
-			}
-		case "Interval":
-			opt.Interval = hybridqp.Interval{Duration: time.Duration(1+g.r.Intn(1000)) * time.Second, Offset: time.Duration(g.r.Intn(1000))}
-		case "GroupBy":
-			opt.GroupBy = map[string]struct{}{g.word(): {}, "k2": {}}
-		case "Location":
-			opt.Location = time.UTC
-		case "Fill":
-			opt.Fill = influxql.FillOption(g.r.Intn(5))
-		case "FillValue":
-			switch g.r.Intn(3) {
-			case 0:
-				opt.FillValue = float64(g.r.Intn(1000)) / 4
-			case 1:
-				opt.FillValue = int64(1 + g.r.Intn(1000)) // fill(5): the grammar hands an int64 on
-			default:
-				opt.FillValue = nil
-			}
-		case "SortFields":
-			opt.SortFields = influxql.SortFields{{Name: "a", Ascending: g.r.Bool()}, {Name: "usage_user", Ascending: true}}
-		case "SeriesKey":
-			opt.SeriesKey = []byte(g.word() + "k")
-		case "Dimensions":
-			opt.Dimensions = []string{g.word(), "d2"}
-		default:
-			switch fv.Kind() {
-			case reflect.String:
-				fv.SetString(g.word() + "s")
-			case reflect.Bool:
-				fv.SetBool(true)
-			case reflect.Int, reflect.Int32, reflect.Int64:
-				fv.SetInt(int64(1 + g.r.Intn(1<<20)))
-			case reflect.Uint64, reflect.Uint32:
-				fv.SetUint(uint64(1 + g.r.Intn(1<<20)))
-			default:
-				panic("harness: no generator for ProcessorOptions." + f.Name + " (" + fv.Kind().String() + "): add one, or list the field in optionsLocal and OG.C12.optionsLocal")
-			}
-		}
-	}
-	return opt
-}
-
-func canonField(name string, v reflect.Value) string {
-	if !v.IsValid() {
-		return "<invalid>"
-	}
-	if name == "FillValue" {
-		// the wire carries a float64; the consumers convert with TransToFloat / TransToInteger,
-		// so the numeric value is what must survive (unset = 0)
-		switch x := v.Interface().(type) {
-		case nil:
-			return "0"
-		case float64:
-			return fmt.Sprintf("%v", x)
-		case int64:
-			return fmt.Sprintf("%v", float64(x))
-		default:
-			return fmt.Sprintf("%T", x)
-		}
-	}
-	switch x := v.Interface().(type) {
-	case influxql.Expr:
-		if x == nil {
-			return "nil"
-		}
-		return dump(x)
-	case []influxql.Source:
-		var parts []string
-		for _, s := range x {
-			m, ok := s.(*influxql.Measurement)
-			if !ok {
-				parts = append(parts, fmt.Sprintf("%T", s))
-				continue
-			}
-			parts = append(parts, fmt.Sprintf("%q.%q.%q target=%v sys=%q eng=%d sorted=%v", m.Database, m.RetentionPolicy, m.Name, m.IsTarget, m.SystemIterator, m.EngineType, m.IsTimeSorted))
-		}
-		return strings.Join(parts, ";")
-	case influxql.SortFields:
-		var parts []string
-		for _, f := range x {
-			parts = append(parts, fmt.Sprintf("%q asc=%v", f.Name, f.Ascending))
-		}
-		return strings.Join(parts, ";")
-	case *time.Location:
-		if x == nil {
-			return "nil"
-		}
-		return x.String()
-	case map[string]struct{}:
-		ks := make([]string, 0, len(x))
-		for k := range x {
-			ks = append(ks, k)
-		}
-		sort.Strings(ks)
-		return fmt.Sprintf("%q", ks)
-	}
-	return fmt.Sprintf("%#v", v.Interface())
-}
-
-func runOptions(c *hx.Ctx, g *gen) {
-	opt := g.options()
-	var got query.ProcessorOptions
-	var err error
-	var buf []byte
-	p := hx.Safe(func() {
-		buf, err = opt.MarshalBinary()
-		if err == nil {
-			err = got.UnmarshalBinary(buf)
-		}
-	})
-	ans := "ok"
-	var diffs []string
-	if p != "" {
-		ans = "err " + p
-	} else if err != nil {
-		ans = "err " + err.Error()
-	} else {
-		a, b := reflect.ValueOf(opt).Elem(), reflect.ValueOf(&got).Elem()
-		for i := 0; i < a.NumField(); i++ {
-			f := a.Type().Field(i)
-			if optionsLocal[f.Name] || !f.IsExported() {
-				continue
-			}
-			if x, y := canonField(f.Name, a.Field(i)), canonField(f.Name, b.Field(i)); x != y {
-				diffs = append(diffs, fmt.Sprintf("%s: sent %s, received %s", f.Name, x, y))
-			}
-		}
-		if len(diffs) > 0 {
-			ans = "differs"
-		}
-	}
-	line := c.Emit("codec options", ans)
-	c.Case(fmt.Sprintf("options %d", line), true)
-	c.Count("codec:options")
-	if ans != "ok" {
-		c.Violation(line, "", "ProcessorOptions Marshal->Unmarshal: "+ans+" "+strings.Join(diffs, " | "))
-	}
-}
 
 // ---------------------------------------------------------------------------------------------
 // plans
@@ -568,7 +379,7 @@ func runCodecs(c *hx.Ctx, g *gen, n int) error {
 	for i := 0; i < n; i++ {
 		switch i % 3 {
 		case 0:
-			runOptions(c, g)
+			runOpts(c, g)
 		case 1:
 			runPlan(c, g)
 		default:
